@@ -87,6 +87,8 @@ def c13_cases(rng, tier):
                 cases.append(f"gparse {g} " + hx(bytes([b]) + bytes((0xA0 + i) & 0xFF for i in range(k))))
     # mapped bytecode: slices from every start index must decode to the ops they cover
     cases += mapseq_cases(rng, rows, 60 if tier == "quick" else 2000)
+    for _ in range(60 if tier == "quick" else 2000):
+        cases.append(f"fromops {ops_toks(rand_ops(rng, rows, rng.randrange(0, 10)))}")
     # all opcode pairs
     for a in rows:
         for b in rows:
